@@ -244,6 +244,33 @@ def strategy(tier):
     return _program(tier).flatmap(lambda p: _config(tier, p).map(lambda c: {"prog": p, "cfg": c}))
 
 
+def enumerate_cases(tier):
+    """Device-derivative paths (adjoint Jacobian / adjoint VJP, backprop with device_vjp) x every observable representation
+    (Pauli word, Hermitian matrix on 1 and 2 wires, linear combination, product with a Hermitian factor) x interface: the
+    random configurations reach each combination too rarely in the quick tier."""
+    args = [{"shape": [], "val": [0.412]}, {"shape": [], "val": [-0.733]}]
+    ops = [{"op": "RX", "p": [["arg", 0, None]], "w": [0]}, {"op": "U3", "p": [["const", 0.4], ["const", -0.9], ["const", 0.2]], "w": [0]},
+           {"op": "RY", "p": [["arg", 1, None]], "w": [1]}, {"op": "CNOT", "p": [], "w": [0, 1]},
+           {"op": "Rot", "p": [["const", 0.3], ["arg", 0, None], ["const", -0.2]], "w": [1]}, {"op": "IsingXY", "p": [["arg", 1, None]], "w": [1, 0]}]
+    H1 = {"op": "Hermitian", "p": [{"H": [0.3, -0.2, 0.9, 0.4, 0.1], "n": 1}], "w": [1]}
+    H1b = {"op": "Hermitian", "p": [{"H": [-0.6, 0.5, 0.2, -0.7, 0.8], "n": 1}], "w": [0]}
+    obs = {
+        "pauli": [{"op": "PauliZ", "w": [0]}, {"op": "prod", "operands": [{"op": "PauliX", "w": [0]}, {"op": "PauliY", "w": [1]}]}],
+        "hermitian": [H1],
+        "hermitian+pauli": [H1b, {"op": "PauliY", "w": [1]}],
+        "hermitian-only-2": [H1, H1b],
+        "lin": [{"op": "sum", "operands": [{"op": "s_prod", "c": 0.5, "base": {"op": "PauliZ", "w": [0]}}, {"op": "s_prod", "c": -1.2, "base": {"op": "PauliX", "w": [1]}}]}],
+    }
+    for oname, ol in obs.items():
+        for iface in ("autograd", "jax", "torch"):
+            for m, dvjp in (("adjoint", True), ("adjoint", False), ("backprop", True)):
+                if tier == "quick" and m == "backprop" and oname not in ("hermitian", "pauli"):
+                    continue
+                yield {"prog": {"args": args, "wires": [0, 1], "ops": ops, "meas": [{"mp": "expval", "obs": o} for o in ol]},
+                       "cfg": {"iface": iface, "method": m, "gk": {}, "goe": "best", "dvjp": dvjp, "post": "stack" if iface == "autograd" else "raw",
+                               "jac": "rev", "devwires": "none"}}
+
+
 # ------------------------------------------------------------------------------------------------ running a configuration
 
 _REJECT_PATTERNS = [
